@@ -84,6 +84,9 @@ impl Samples {
 struct W {
     c64: bool,
     be: bool,
+    /// multiplier for entry counts (notes per section, relocations, version definitions and
+    /// needs, chain lengths): 1 normally, see `GenParams::scale`
+    scale: usize,
 }
 
 impl W {
@@ -259,7 +262,7 @@ fn build_note(w: &W, o: &mut Vec<u8>, name: &[u8], desc: &[u8], typ: u32, align:
 
 fn gen_notes(w: &W, rng: &mut Rng, align: usize) -> Vec<u8> {
     let mut o = Vec::new();
-    let n = rng.urange(1, 4);
+    let n = rng.urange(1, 4) * w.scale;
     for _ in 0..n {
         match rng.below(4) {
             0 => {
@@ -305,7 +308,7 @@ fn gen_dynamic(w: &W, rng: &mut Rng) -> Vec<u8> {
 
 fn gen_rel(w: &W, rng: &mut Rng, rela: bool, nsyms: usize) -> Vec<u8> {
     let mut o = Vec::new();
-    let n = rng.urange(0, 8);
+    let n = rng.urange(0, 8) * w.scale;
     for _ in 0..n {
         let off = rng.below(0x4000);
         let sym = rng.below(nsyms.max(1) as u64);
@@ -325,7 +328,8 @@ fn gen_rel(w: &W, rng: &mut Rng, rela: bool, nsyms: usize) -> Vec<u8> {
 
 fn gen_sysv_hash(w: &W, rng: &mut Rng, syms: &[SymSpec]) -> Vec<u8> {
     let nchain = syms.len();
-    let nbucket = rng.urange(1, 5);
+    // scaled images: half of them with a single bucket, i.e. one chain through every symbol
+    let nbucket = if w.scale > 1 && rng.chance(1, 2) { 1 } else { rng.urange(1, 5) };
     let mut buckets = vec![0u32; nbucket];
     let mut chains = vec![0u32; nchain];
     for (i, s) in syms.iter().enumerate().skip(1) {
@@ -347,7 +351,7 @@ fn gen_sysv_hash(w: &W, rng: &mut Rng, syms: &[SymSpec]) -> Vec<u8> {
 
 /// Well-formed GNU hash table; reorders `syms` (undefined first, defined sorted by bucket).
 fn gen_gnu_hash(w: &W, rng: &mut Rng, syms: &mut Vec<SymSpec>) -> Vec<u8> {
-    let nbucket = rng.urange(1, 4) as u32;
+    let nbucket = if w.scale > 1 && rng.chance(1, 2) { 1 } else { rng.urange(1, 4) as u32 };
     let first = syms.remove(0);
     let (mut undef, mut def): (Vec<SymSpec>, Vec<SymSpec>) =
         syms.drain(..).partition(|s| !s.defined);
@@ -404,12 +408,12 @@ struct Versions {
 }
 
 fn gen_versions(w: &W, rng: &mut Rng, nsyms: usize, strs: &mut StrTab) -> Versions {
-    let ndefs = rng.urange(0, 3);
-    let nfiles = rng.urange(0, 2);
+    let ndefs = rng.urange(0, 3) * w.scale;
+    let nfiles = rng.urange(0, 2) * w.scale;
     // verdef
     let mut verdef = Vec::new();
     for d in 0..ndefs {
-        let naux = rng.urange(1, 2);
+        let naux = if w.scale > 1 && rng.chance(1, 8) { rng.urange(1, 2) * w.scale } else { rng.urange(1, 2) };
         let vd_next = if d + 1 == ndefs { 0 } else { 20 + 8 * naux };
         w.p16(&mut verdef, 1);
         w.p16(&mut verdef, rng.below(2) as u16);
@@ -434,7 +438,7 @@ fn gen_versions(w: &W, rng: &mut Rng, nsyms: usize, strs: &mut StrTab) -> Versio
     let mut next_other = (ndefs + 2) as u16;
     let mut others: Vec<u16> = Vec::new();
     for f in 0..nfiles {
-        let naux = rng.urange(1, 3);
+        let naux = if w.scale > 1 && rng.chance(1, 8) { rng.urange(1, 3) * w.scale } else { rng.urange(1, 3) };
         let vn_next = if f + 1 == nfiles { 0 } else { 16 + 16 * naux };
         w.p16(&mut verneed, 1);
         w.p16(&mut verneed, naux as u16);
@@ -520,6 +524,10 @@ pub struct GenParams {
     /// string table: a second STRTAB header over the same bytes sharing the start (shorter),
     /// the end, or the whole range with the original
     pub relink: bool,
+    /// entry-count multiplier (1 = none): long hash chains (>= 64 hops), hundreds of symbols,
+    /// notes, relocations, version definitions / needs and aux entries: loops that only run
+    /// long on big tables
+    pub scale: usize,
 }
 
 impl GenParams {
@@ -549,7 +557,7 @@ impl GenParams {
         if thorough && rng.chance(1, 20) {
             max_pad *= 4;
         }
-        GenParams {
+        let mut p = GenParams {
             c64: rng.chance(1, 2),
             be: rng.chance(1, 2),
             layout,
@@ -588,6 +596,7 @@ impl GenParams {
             dup_kinds: rng.chance(1, 12),
             xnum_zero: rng.chance(1, 14),
             relink: rng.chance(1, 8),
+            scale: 1,
             many_sections: if small || !rng.chance(1, 24) {
                 0
             } else {
@@ -610,7 +619,15 @@ impl GenParams {
             } else {
                 0
             },
+        };
+        // scale-up: 1 image in 16 (never the small, exhaustively enumerated ones) has its entry
+        // counts multiplied and 60..400 symbols, so that chains, lists and tables run past any
+        // plausible small-table threshold (16, 64, 128, 256 entries)
+        if !small && rng.chance(1, 16) {
+            p.scale = *rng.pick(&[4usize, 16, 48]);
+            p.nsyms = rng.urange(60, 400);
         }
+        p
     }
 
     pub fn to_json(&self) -> J {
@@ -652,6 +669,7 @@ impl GenParams {
             .with("big", J::u(self.big as u64))
             .with("many_sections", J::u(self.many_sections as u64))
             .with("relink", J::Bool(self.relink))
+            .with("scale", J::u(self.scale as u64))
             .with("no_shstrtab", J::Bool(self.no_shstrtab))
             .with("max_pad", J::u(self.max_pad as u64))
             .with("nsyms", J::u(self.nsyms as u64))
@@ -693,6 +711,7 @@ pub fn build(rng: &mut Rng, p: &GenParams) -> Vec<u8> {
     let w = W {
         c64: p.c64,
         be: p.be,
+        scale: p.scale.max(1),
     };
     let mut secs: Vec<Sec> = Vec::new();
     let mut note_secs: Vec<String> = Vec::new();
